@@ -96,7 +96,7 @@ template <class F> static Child isolated(F job, int wall = 20, int mem_mb = 1024
     alarm(wall);
     job(p[1]);
     close(p[1]);
-    _exit(0);
+    VH_EXIT(0);
   }
   close(p[1]);
   string out; char buf[65536]; ssize_t k;
